@@ -270,6 +270,10 @@ def build_world(ck, work, quick, rnd=0):
                         envins = insdir_rel
                     elif r < 0.55:
                         ctxins = b""
+                if fmt == "mod" and entry == "path" and di == 0:
+                    ctxins, envins = b"", None          # always exercised: empty instrument path
+                if fmt == "stm" and entry == "mem" and di == 0:
+                    ctxins, envins = None, b""
                 helper = "ok" if (fmt in ("mo3", "rar") and rng.random() < 0.5) else "fail"
                 ops.append(Op(new_id(), fmt, entry, modpath, ctxins, envins, helper, names, nlen))
         # a module in the current directory (dirname "")
@@ -346,7 +350,14 @@ def judge(op, phase, calls, tmpdir, model):
             elif phase == "load" and dirname is not None and p.startswith(dirname) and is_child(p[len(dirname):]):
                 ok = True
                 opened.append(p)
-            elif phase == "load" and ins is not None and p.startswith(ins + b"/") and is_child(p[len(ins) + 1:]):
+            elif phase == "load" and ins is not None and p.startswith((ins or b".") + b"/") and is_child(p[len(ins or b".") + 1:]):
+                ok = True
+                opened.append(p)
+            elif phase == "load" and ins == b"" and p.startswith(b"/") and is_child(p[1:]):
+                # the directory listed was "." but the file is opened in "/"
+                viol.append(("open:%s:empty-instrument-path" % fmt,
+                             "%s(%r) with the instrument path set to \"\": the name was matched against the entries of the current "
+                             "directory but is opened in the root directory" % (fn, p)))
                 ok = True
                 opened.append(p)
             if ok and not readonly:
@@ -451,8 +462,9 @@ def model_queries(ops, work):
         if op.fmt == "mfp":
             lines.append("mfp " + mp)
             idx.append((op.id, "mfp"))
-        if op.fmt in ("mod", "stm"):
-            # what the song-only loaders should open for every sample name (instrument order)
+        if op.fmt in ("mod", "stm") and (op.ctxins if op.ctxins is not None else op.envins) != b"":
+            # what the song-only loaders should open for every sample name (instrument order);
+            # an empty instrument path is left to the oracle (see finding open:*:empty-instrument-path)
             ins = op.ctxins if op.ctxins is not None else op.envins
             dirname = op.modpath[:op.modpath.rfind(b"/") + 1] if op.entry == "path" else None
             d1 = "none" if ins is None else "%s %s" % (hx(ins), listing(ins))
@@ -575,7 +587,7 @@ def run_opens(ck, only_round=None, only_op=None, verbose=False):
                                 corr.append("%s companions: library opened %r, model says %r" % (op.fmt, seen, exp))
                             else:
                                 ck.cov["traces_validated_against_impl"] += 1
-                        elif op.fmt in ("mod", "stm") and ret == 0:
+                        elif op.fmt in ("mod", "stm") and ret == 0 and "ext" in m:
                             seen = [c for c in calls if c[0] == "fopen"]
                             seen = [unhex(c[1]) for c in seen if unhex(c[1]) != op.modpath or op.entry != "path"]
                             if op.entry == "path" and seen and seen[0] == op.modpath:
